@@ -275,6 +275,19 @@ fn listing_cfgs() -> Vec<Cfg> {
             v.push(Cfg::rot(CritK::Size(LIMIT), naming, clean));
         }
     }
+    // other name shapes: basename suppressed (with and without discriminant), no suffix
+    for naming in [NamingK::Numbers, NamingK::Timestamps, NamingK::TimestampsDirect] {
+        for (b, d, sfx) in [(None, Some("svc"), Some("log")), (None, None, Some("log")), (Some("app"), Some("svc"), None)] {
+            let mut cfg = Cfg::rot(CritK::Size(LIMIT), naming, CleanK::Log(1));
+            cfg.parts = NameParts {
+                basename: b.map(String::from),
+                discriminant: d.map(String::from),
+                suffix: sfx.map(String::from),
+                use_timestamp: false,
+            };
+            v.push(cfg);
+        }
+    }
     v
 }
 
